@@ -165,9 +165,9 @@ var c03Hop = map[string][2]string{
 
 func TestVerifC03(t *testing.T) {
 	env := mc.GetEnv()
-	maxDev := 3
+	maxDev := 4
 	if env.Thorough() {
-		maxDev = 4
+		maxDev = 5
 	}
 	c03Backend = newLBBackend()
 	run := func(c *mc.Ctx) {
